@@ -46,8 +46,36 @@ REQUIRED_PROBES = ['corrupt_sa', 'corrupt_R', 'corrupt_T', 'corrupt_X', 'corrupt
                    'wrong_scalar_decrypt', 'crash_between_decrypt_and_publish',
                    'splice', 'misroute', 'honest_spend_accepted', 'extract',
                    'check_after_unrelated_derive', 'two_adapters_in_one_execution',
-                   'neutral_tweak_point_offered'] + \
+                   'neutral_tweak_point_offered', 'signature_extension_configured_by_prefix'] + \
     ['variant_' + v for v in VARIANTS]
+
+
+def ext_fields(sf, extflags):
+    """what the signature-extension plugin below makes of the sigfields: the
+    fields selected by the extension flags are replaced by their SHA-256"""
+    import hashlib
+    out = {}
+    for k, v in sf.items():
+        i = int(k[8:])
+        out[k] = hashlib.sha256(v).digest() if (extflags >> (i - 1)) & 1 else v
+    return out
+
+
+def ext_plugin(tape, stack, cache):
+    """a signature extension in the style of the repository's own example
+    (tests/test_e2e_extensions.py): configured per execution through the cache
+    location b'sigext' (`@= sigext [ x02 ]`), idempotent across the several calls
+    one execution makes"""
+    import hashlib
+    flags = cache.get(b'sigext', [b'\x00'])[0]
+    flags = int.from_bytes(flags, 'big')
+    if 'sigfield_backup' not in cache:
+        cache['sigfield_backup'] = {k: cache[k] for k in list(cache)
+                                    if isinstance(k, str) and k.startswith('sigfield') and
+                                    k != 'sigfield_backup'}
+    for k, v in cache['sigfield_backup'].items():
+        i = int(k[8:])
+        cache[k] = hashlib.sha256(v).digest() if (flags >> (i - 1)) & 1 else v
 
 
 def decode_cell(i):
@@ -87,6 +115,10 @@ def gen_exchange(rng, cell):
     v, tw, co, fl = cell
     ex = {'variant': v, 'tweak_class': tw, 'tweak': tweak_bytes(rng, tw).hex(),
           'keys': rng.choice(['bytes', 'bytes', 'object']), 'prefix': rng.choice(PREFIXES),
+          # one builder exchange in five runs under a signature-extension plugin that is
+          # configured through the sign / witness script prefix
+          'sigext': rng.choice([None, None, None, None, '01', '02', 'ff'])
+          if v not in ('raw_public', 'raw_private') else None,
           'seed': rng.bytes(32).hex(), 'flags': fl if v not in ('raw_public', 'raw_private') else '00'}
     if v in ('raw_public', 'raw_private'):
         ex['m'] = rng.bytes(rng.choice([0, 1, 11, 32, 64, 255, 256, 512, rng.below(513)])).hex()
@@ -214,12 +246,20 @@ class Ex:
         self.t_eff = scalar_to_int(clamp255(self.t)) % L
         self.T = base_mult(int_to_scalar(self.t_eff))
         self.flags = spec['flags']
+        self.ext = 0
+        self.ext_src = ''
+        self.ext_code = b''
         if 'm' in spec:
             self.m = bytes.fromhex(spec['m'])
             self.sf = None
         else:
             self.sf = {k: bytes.fromhex(v) for k, v in spec['sigfields'].items()}
             self.m = sig_message(self.sf, int(self.flags, 16))
+            if spec.get('sigext'):
+                self.ext = int(spec['sigext'], 16)
+                self.ext_src = '@= sigext [ x%s ]' % spec['sigext']
+                self.ext_code = T.compile_script(self.ext_src)
+                self.m = sig_message(ext_fields(self.sf, self.ext), int(self.flags, 16))
         self.T_at_A = None
         self.sent = None            # (R, sa) as produced by A
         self.sent_for_T = None
@@ -246,7 +286,7 @@ def build_adapter(e, T_used):
         return R, sa
     w = real('make_adapter_witness', T.make_adapter_witness,
              as_key_arg('prv', e.seed, e.spec.get('keys', 'bytes')), T_used, e.sf, e.flags,
-             e.spec.get('prefix', ''))
+             (e.spec.get('prefix', '') + ' ' + e.ext_src).strip())
     _, st, _ = real('run_script(adapter witness)', F.run_script, w.bytes, dict(e.sf))
     R, sa = st.get(), st.get()
     return R, sa
@@ -257,7 +297,7 @@ def run_check(e, R, sa, Xv, Tv, mv, sfv, prefix=False):
     `prefix`, B's script first derives an unrelated key pair of its own in the
     same execution (so the cache holds b'x' / b'X' of another key): the check
     must only depend on its five inputs."""
-    w = pb(sa) + pb(R)
+    w = e.ext_code + pb(sa) + pb(R)
     if prefix:
         w = pb(b'\x42' * 32) + T.compile_script('derive_scalar derive_point pop0') + w
     try:
@@ -316,7 +356,7 @@ def spend(e, sig, run):
         sf = dict(e.sf)
         item = sig + (bytes.fromhex(e.flags) if int(e.flags, 16) else b'')
     try:
-        r = F.run_auth_scripts([pb(item), lock], sf)
+        r = F.run_auth_scripts([e.ext_code + pb(item), lock], sf)
     except BaseException:       # noqa
         run.aux_auth_raised += 1
         return False
@@ -325,7 +365,7 @@ def spend(e, sig, run):
 
 def one_shot(e, R, sa, run):
     """the variant's composed lock flow; returns True/False or None if n/a"""
-    w = pb(sa) + pb(R)
+    w = e.ext_code + pb(sa) + pb(R)
     glue = 'concat' + (' push x%s concat' % e.flags if int(e.flags, 16) else '')
     try:
         if e.v == 'three_script':
@@ -333,7 +373,7 @@ def one_shot(e, R, sa, run):
             return F.run_auth_scripts([w, s2, T.compile_script(glue), s3], dict(e.sf)) is True
         if e.v == 'deprecated':
             lock = T.make_adapter_lock_prv(e.X, e.t, e.flags)
-            return F.run_auth_scripts([pb(e.t) + w, lock], dict(e.sf)) is True
+            return F.run_auth_scripts([e.ext_code + pb(e.t) + pb(sa) + pb(R), lock], dict(e.sf)) is True
         if e.v == 'two_script':
             s1, s2 = T.make_adapter_locks_pub(e.X, e.T, e.flags)
             dec = T.make_adapter_decrypt(e.t)
@@ -349,6 +389,11 @@ def one_shot(e, R, sa, run):
 def execute(plan, run):
     reset_world(plan['run_seed'])
     exs = {eid: Ex(eid, spec) for eid, spec in plan['exchanges'].items()}
+    if any(e.ext_src for e in exs.values()):
+        # registered for the whole run; exchanges that do not configure it are not
+        # affected by it (its default is "extend nothing")
+        F.add_signature_extension(ext_plugin)
+        run.probe('signature_extension_configured_by_prefix')
     rng = Rng(plan['run_seed'] ^ 0x5eed)
     for e in exs.values():
         run.probe('variant_' + e.v)
@@ -454,7 +499,7 @@ def execute(plan, run):
                         else:
                             k = live[view['bit'] % len(live)]
                             sfv[k] = flip(sfv[k], view['bit'])
-                            mv = sig_message(sfv, int(e.flags, 16))
+                            mv = sig_message(ext_fields(sfv, e.ext), int(e.flags, 16))
             for (R, sa) in list(e.inbox):
                 damaged = (e.sent is None or (R, sa) != e.sent or e.sent_for_T != Tv or
                            Xv != e.X or mv != e.m)
